@@ -32,6 +32,17 @@ Rec(pr, pm, db) ==
 Next == /\ ~done /\ done' = TRUE /\ par' = par /\ perm' \in PermsOf(NN)
         /\ DB' = DBof(par, perm')
         /\ PrintT(ToJson(Rec(par, perm', DB')))
+\* BlockCompose: importing a file followed by a renamed copy of it (ids and Parent values suffixed, incl. the dangling name) gives the
+\* database of the file followed by its renamed copy - blocks with disjoint names do not interact.  This is what lets the conformance step
+\* scale the model's answers to files of thousands of lines (c02 "scaled forest").
+Ren(t) == t \o <<95, 50>>                       \* x -> x_2
+RenF(f) == [f EXCEPT !.attrs = [i \in 1..Len(f.attrs) |-> <<f.attrs[i][1], IF f.attrs[i][1] \in {T_ID, T_Parent} THEN [j \in 1..Len(f.attrs[i][2]) |-> Ren(f.attrs[i][2][j])] ELSE f.attrs[i][2]>>]]
+RenStored(f) == [RenF(f) EXCEPT !.id = Ren(f.id)]
+InvBlockCompose == done =>
+   LET ls == Lines(par, perm)
+       two == Create(ls \o [k \in 1..Len(ls) |-> RenF(ls[k])], <<>>, DefaultDialect, DefaultCfg).db IN
+   /\ two.rels = DB.rels \cup {<<Ren(r[1]), Ren(r[2]), r[3]>> : r \in DB.rels}
+   /\ two.feats = DB.feats \o [k \in 1..Len(DB.feats) |-> RenStored(DB.feats[k])]
 InvRels    == done => DB.rels = Rel1_Decl(DB) \cup Rel2_Decl(DB)
 InvInverse == done => \A x \in Ids(DB), y \in Ids(DB), l \in 0..2 : (y \in Children(DB, x, l)) <=> (x \in Parents(DB, y, l))
 InvUpdateKeeps == done => AfterUpdate(par, perm).rels = DB.rels
